@@ -207,9 +207,15 @@ func (c *compiler) compileFile(astFile *ast.File, pkg *pkg.Package) *file {
 		msgfmt := "files that use %v must be tagged with the 'cff' constraint: " +
 			"fix by adding '//go:build cff' to the top of this file"
 		for _, f := range file.Flows {
+			if f == nil {
+				continue // failed to compile; already reported
+			}
 			c.errf(c.nodePosition(f.Node), msgfmt, "cff.Flow")
 		}
 		for _, p := range file.Parallels {
+			if p == nil {
+				continue // failed to compile; already reported
+			}
 			c.errf(c.nodePosition(p.Node), msgfmt, "cff.Parallel")
 		}
 	}
